@@ -146,7 +146,9 @@ ScrollFnOK(t, fn, u, dr) ==
        [] f = "Il" -> ScrollDownOK(t, u, t.row, IlDlLast(t), NN(a[1]), dr) /\ SameCursor(t, u)
        [] f = "Dl" -> ScrollUpOK(t, u, t.row, IlDlLast(t), NN(a[1]), dr) /\ SameCursor(t, u)
        [] f = "Lf" -> ScrollUpOK(t, u, t.top, t.bottom, 1, dr)                       \* on the bottom margin
-                      /\ (IF t.newline THEN u.col = 0 /\ ~u.pw /\ u.row = t.row ELSE SameCursor(t, u))
+                      /\ u.row = t.row
+                      /\ (IF t.newline THEN u.col = 0 /\ ~u.pw
+                          ELSE SameCursor(t, u) \/ (u.col = Min2(t.col, t.cols - 1) /\ ~u.pw))   \* silent: may a scrolling LF drop a pending wrap?
        [] f = "Nel" -> ScrollUpOK(t, u, t.top, t.bottom, 1, dr) /\ u.col = 0 /\ ~u.pw /\ u.row = t.row
        [] f = "Ri" -> ScrollDownOK(t, u, t.top, t.bottom, 1, dr) /\ SameCursor(t, u)  \* on the top margin
 
